@@ -1,7 +1,7 @@
 import corpus
 
-PLAN_QUICK = [('exc', ['cov4', 'trace4']), ('act', ['cov3']), ('ctx', ['v1', 'v4', 'all1', 'nounw1']), ('exc', ['v1', 'v4']), ('act', ['v4'])]
-PLAN_THOROUGH = [('exc', ['cov4', 'trace4', 'strace1']), ('act', ['cov3', 'cov4']), ('ctx', ['cov4']), ('ctx', ['v1', 'v4', 'all1', 'nounw1', 'v3']), ('exc', ['v1', 'v4', 'all1', 'nounw1']), ('act', ['v4', 'v3', 'all1']), ('core', ['all1']), ('conv', ['all1'])]
+PLAN_QUICK = [('exc', ['mif4']), ('ctx', ['mif1']), ('exc', ['cov4', 'trace4']), ('act', ['cov3']), ('ctx', ['v1', 'v4', 'all1', 'nounw1']), ('exc', ['v1', 'v4']), ('act', ['v4'])]
+PLAN_THOROUGH = [('exc', ['mif4', 'mif1']), ('ctx', ['mif1', 'mif4']), ('conv', ['mif1']), ('exc', ['cov4', 'trace4', 'strace1']), ('act', ['cov3', 'cov4']), ('ctx', ['cov4']), ('ctx', ['v1', 'v4', 'all1', 'nounw1', 'v3']), ('exc', ['v1', 'v4', 'all1', 'nounw1']), ('act', ['v4', 'v3', 'all1']), ('core', ['all1']), ('conv', ['all1'])]
 
 
 def units(tier, seed):
@@ -12,7 +12,7 @@ SPEC = {
     "units": units,
     "finish": {
         "rule": "every rule invocation of every monitored run is one observation of the online stack automaton: start exactly once before any nested invocation, exactly one closing hook that agrees with the outcome seen by the match wrapper (success<->true, failure<->false, unwind<->exception when the control defines unwind, none otherwise), apply/apply0 after the last nested invocation and before the close, raise only from a must/raise rule or the rule's own failure hook; runs end in exceptions from must rules and from actions at arbitrary depth, with controls with and without unwind() and with hooks for internal rules enabled. Non-trivial case: reference needed more than 3 steps.",
-        "floors": {'hook:unwind': 1000, 'coverage:entries-with-unwind': 100, 'coverage:entries-with-attempts': 10000, 'hook:raise': 1000, 'action:threw': 50, 'action:vetoed': 50},
+        "floors": {'hook:unwind': 1000, 'coverage:entries-with-unwind': 100, 'coverage:entries-with-attempts': 10000, 'hook:raise': 1000, 'hook:must_if-raise': 500, 'action:threw': 50, 'action:vetoed': 50},
         "assumptions": ['controls that replace match() wholesale are out of reach'],
     },
 }
